@@ -62,10 +62,11 @@ def _setup_store(w):
 
 
 def make_scenario(name, backend):
-    d = SCENARIOS[name]
+    base, _, policy = name.partition("@")
+    d = SCENARIOS[base]
     return Scenario("%s|%s" % (name, backend), backend, [(c, ADDR[c]) for c in d["conns"]], d["script"],
                     storage_options={"stats_interval": 1e15}, allow_drop=d.get("allow_drop", ()), stall=d.get("stall", ()),
-                    setup=_setup_store, horizon=30.0)
+                    setup=_setup_store, horizon=30.0, policy=policy or "actor")
 
 
 def cases(tier):
@@ -75,7 +76,7 @@ def cases(tier):
     env.boot()
     bound = 1 if tier == "quick" else 2
     for backend in ("sql", "kv"):
-        for name in SCENARIOS:
+        for name in [n + sfx for n in SCENARIOS for sfx in ("", "@fair")]:
             scn = make_scenario(name, backend)
             out.append(("sched", backend, name, (), tier))
             firsts, npts = explorer.first_level(scn)
